@@ -227,13 +227,14 @@ pub fn raw_ev(log: &mut Log, bytes: &[u8], origin: &str, via: &str) {
 
 /// ... `base`: the valid image that `map_data` starts from (default: a one-key map).
 pub fn raw_ev_from(log: &mut Log, bytes: &[u8], origin: &str, via: &str, base: Option<&[u8]>) {
+    let _ = crate::alloc::take_huge();
     let r = guard(|| -> (Value, Value) {
         macro_rules! probe {
             ($fst:expr) => {{
                 match $fst {
                     Ok(f) => {
                         let v = f.verify();
-                        (jok(), json!({"size": jn(f.size()), "ty": ju(f.fst_type()), "len": ju(f.len() as u64), "empty": f.is_empty(), "verify": jres(&v), "as_bytes": f.as_bytes().len()}))
+                        (jok(), json!({"size": jn(f.size()), "ty": ju(f.fst_type()), "len": ju(f.len() as u64), "empty": f.is_empty(), "verify": jres(&v), "as_bytes": f.as_bytes().len(), "to_vec": f.to_vec().len()}))
                     }
                     Err(e) => (jopen::<()>(&Err(e)), json!({})),
                 }
@@ -259,7 +260,7 @@ pub fn raw_ev_from(log: &mut Log, bytes: &[u8], origin: &str, via: &str, base: O
                         Ok(m) => {
                             let f = m.as_fst();
                             let v = f.verify();
-                            (jok(), json!({"size": jn(f.size()), "ty": ju(f.fst_type()), "len": ju(m.len() as u64), "empty": m.is_empty(), "verify": jres(&v), "as_bytes": f.as_bytes().len()}))
+                            (jok(), json!({"size": jn(f.size()), "ty": ju(f.fst_type()), "len": ju(m.len() as u64), "empty": m.is_empty(), "verify": jres(&v), "as_bytes": f.as_bytes().len(), "to_vec": f.to_vec().len()}))
                         }
                         Err(e) => (jopen::<()>(&Err(e)), json!({})),
                     },
@@ -267,7 +268,7 @@ pub fn raw_ev_from(log: &mut Log, bytes: &[u8], origin: &str, via: &str, base: O
                         Ok(m) => {
                             let f = m.as_fst();
                             let v = f.verify();
-                            (jok(), json!({"size": jn(f.size()), "ty": ju(f.fst_type()), "len": ju(m.len() as u64), "empty": m.is_empty(), "verify": jres(&v), "as_bytes": f.as_bytes().len()}))
+                            (jok(), json!({"size": jn(f.size()), "ty": ju(f.fst_type()), "len": ju(m.len() as u64), "empty": m.is_empty(), "verify": jres(&v), "as_bytes": f.as_bytes().len(), "to_vec": f.to_vec().len()}))
                         }
                         Err(e) => (jopen::<()>(&Err(e)), json!({})),
                     },
@@ -277,7 +278,7 @@ pub fn raw_ev_from(log: &mut Log, bytes: &[u8], origin: &str, via: &str, base: O
                 Ok(m) => {
                     let f = m.as_fst();
                     let v = f.verify();
-                    (jok(), json!({"size": jn(f.size()), "ty": ju(f.fst_type()), "len": ju(m.len() as u64), "empty": m.is_empty(), "verify": jres(&v), "as_bytes": f.as_bytes().len()}))
+                    (jok(), json!({"size": jn(f.size()), "ty": ju(f.fst_type()), "len": ju(m.len() as u64), "empty": m.is_empty(), "verify": jres(&v), "as_bytes": f.as_bytes().len(), "to_vec": f.to_vec().len()}))
                 }
                 Err(e) => (jopen::<()>(&Err(e)), json!({})),
             },
@@ -285,13 +286,19 @@ pub fn raw_ev_from(log: &mut Log, bytes: &[u8], origin: &str, via: &str, base: O
                 Ok(m) => {
                     let f = m.as_fst();
                     let v = f.verify();
-                    (jok(), json!({"size": jn(f.size()), "ty": ju(f.fst_type()), "len": ju(m.len() as u64), "empty": m.is_empty(), "verify": jres(&v), "as_bytes": f.as_bytes().len()}))
+                    (jok(), json!({"size": jn(f.size()), "ty": ju(f.fst_type()), "len": ju(m.len() as u64), "empty": m.is_empty(), "verify": jres(&v), "as_bytes": f.as_bytes().len(), "to_vec": f.to_vec().len()}))
                 }
                 Err(e) => (jopen::<()>(&Err(e)), json!({})),
             },
             _ => probe!(Fst::new(bytes)),
         }
     });
+    // an absurd allocation request during the probe is an outcome of its own
+    let huge = crate::alloc::take_huge();
+    if huge != 0 {
+        log.ev(json!({"ev": "Panic", "in": "Raw", "origin": origin, "msg": format!("allocation of {} bytes requested", huge), "bytes": jb(bytes)}));
+        return;
+    }
     match r {
         Ok((open, rest)) => {
             let mut ev = json!({"ev": "Raw", "origin": origin, "built": origin.starts_with("built"), "via": via, "bytes": jb(bytes), "open": open});
